@@ -178,6 +178,23 @@ def check_case(acc, case):
                         break
                 if stop:
                     break
+            # explicit states given in another dtype (integer basis vectors, float32): may be refused, but
+            # must never give different numbers
+            for dname, dt in (("int64", torch.int64), ("float32", torch.float32)):
+                for k in (0, D - 1):
+                    e = np.eye(D, dtype=complex)[k]
+                    exp = U @ e
+                    try:
+                        o = L.cplx.numpy(call(U_.rotate_psi, cst, basis, space, psi=c2t(e).to(dt), **kw))
+                        o2 = L.cplx.numpy(call(U_.rotate_rho, mst, basis, space, rho=c2t(np.outer(e, e.conj())).to(dt), **kw))
+                    except Exception:  # noqa: BLE001
+                        acc.count("non-double-explicit-state-refused")
+                        continue
+                    tol_ = TOL if dt is torch.int64 else 1e-6
+                    if not close(o, exp, tol_, at=tol_):
+                        bad("rotate_psi", "explicit-" + dname, o, exp, f"e{k}")
+                    if not close(o2, np.outer(exp, exp.conj()), tol_, at=tol_):
+                        bad("rotate_rho", "explicit-" + dname, o2, np.outer(exp, exp.conj()), f"E{k}{k}")
             rhos = [(f"psd{j}", gen_psd(D, j)) for j in range(2)] + [("herm0", gen_herm(D, 0))]
             if n <= 3:
                 rhos += herm_basis(D)
